@@ -109,6 +109,14 @@ class Cfg:
         self.fs = kw.get("fs", None)              # SynchrotronFrequency (Hz); default 0 = from alpha0
         self.vrf = kw.get("vrf", None)            # AcceleratingVoltage (V)
         self.pqsize = kw.get("pqsize", None)      # PhaseSpaceSize (sigma); default 12
+        # StepsPerRevolution (> 0 overrides StepsPerTs: steps per synchrotron period = spr*f_rev/f_s, in general not a whole
+        # number); None = option not given.  `steps_eff` is filled in by the check once the run's /Info/Parameters are known.
+        self.spr = kw.get("spr", None)
+
+    def eff_steps(self):
+        """steps per synchrotron period the run really uses (main(): `steps`), as a double"""
+        se = getattr(self, "steps_eff", None)
+        return float(se) if se else float(self.steps)
 
     def has_wake(self):
         return (self.gap != 0 and self.usecsr) or self.wallcond > 0 or self.collimator > 0
@@ -117,7 +125,7 @@ class Cfg:
         return sum(1 for c in self.currents if c > 0)
 
     def laststep(self):
-        return laststep_of(float(self.steps), float(self.rot))
+        return laststep_of(self.eff_steps(), float(self.rot))
 
     def laststep_pinned(self):
         # before the repair: rotations narrowed to float, no guard factor
@@ -138,7 +146,7 @@ class Cfg:
         if self.zoom is not None:
             a += ["--InitialDistZoom", self.zoom]
         for opt, v in (("--BendingRadius", self.bend), ("--alpha0", self.alpha0), ("--SynchrotronFrequency", self.fs),
-                       ("--AcceleratingVoltage", self.vrf), ("--PhaseSpaceSize", self.pqsize)):
+                       ("--AcceleratingVoltage", self.vrf), ("--PhaseSpaceSize", self.pqsize), ("--StepsPerRevolution", self.spr)):
             if v is not None:
                 a += [opt, repr(float(v))]
         if self.tracking is not None and workdir:
